@@ -31,5 +31,8 @@ for d in sorted(glob.glob(os.path.join(HERE, "seeded", "*", ""))):
     finally:
         subprocess.run(["git", "-C", REPO, "checkout", "--", "."], check=True)
     print(sid, json.dumps(res[sid])[:400], flush=True)
-json.dump(res, open(os.path.join(HERE, "seeded", "RESULTS_%s.json" % tier), "w"), indent=1)
+out_path = os.path.join(HERE, "seeded", "RESULTS_%s.json" % tier)
+allres = json.load(open(out_path)) if os.path.exists(out_path) else {}
+allres.update(res)
+json.dump(allres, open(out_path, "w"), indent=1, sort_keys=True)
 # evidence files were rewritten by runs on changed trees: refresh them on the unchanged tree is the caller's job
